@@ -53,7 +53,8 @@ fn eq3(a: [f64; 3], b: [f64; 3]) -> bool {
 }
 
 const USER1: (f32, f32, f32) = (0.125, 0.75, 0.0625);
-const USER2: (f32, f32, f32) = (0.375, 0.25, 0.5);
+// a waste-heat network: no primary energy at all, some emissions (ren + nren = 0 is a legitimate user value)
+const USER2: (f32, f32, f32) = (0.0, 0.0, 0.5);
 const DEFAULT: [f64; 3] = [0.0, 1.3, 0.3];
 
 /// covering family: each building reaches one kind of factor lookup, over the carriers of the set
